@@ -87,6 +87,9 @@ func fresh(prefix string) *ast.Ident {
 	return ast.NewIdent(fmt.Sprintf("%s%d", prefix, counter))
 }
 
+// selectDefaultSites counts select statements with a default arm (DESIGN appendix A: arrival vs parking).
+var selectDefaultSites int
+
 func buildSelect(sel *ast.SelectStmt, label *ast.Ident) ast.Stmt {
 	var pre []ast.Stmt
 	var caseIdents []ast.Expr
@@ -98,6 +101,7 @@ func buildSelect(sel *ast.SelectStmt, label *ast.Ident) ast.Stmt {
 		body := rwStmts(cc.Body)
 		if cc.Comm == nil {
 			hasDefault = true
+			selectDefaultSites++
 			sw.Body.List = append(sw.Body.List, &ast.CaseClause{List: nil, Body: body})
 			continue
 		}
@@ -361,4 +365,5 @@ func main() {
 		}
 	}
 	fmt.Fprintf(os.Stderr, "vsrewrite: %d files rewritten\n", len(names))
+	os.WriteFile(filepath.Join(*outDir, "select_default_sites"), []byte(strconv.Itoa(selectDefaultSites)), 0o644)
 }
